@@ -223,13 +223,73 @@ fn main() {
         emit(nlanes, &ops, &mut w);
     }
 
+    // ---- the read task's lane senders: every command received for a lane is counted, whether or not the lane takes
+    // it (real code only) ----
+    let mut failures: Vec<String> = vec![];
+    {
+        use bytes::Bytes;
+        use swimos_runtime::verif_hooks::agent::task::LaneSender;
+        for i in 0..(args.cases / 4).max(8) {
+            let map = i % 2 == 1;
+            let n = rng.range(1, 12) as usize;
+            let close_at = if rng.below(3) == 0 { Some(rng.usize_below(n)) } else { None };
+            let reporter = UplinkReporter::default();
+            let reader = reporter.reader();
+            let (tx, rx) = byte_channel(NonZeroUsize::new(1 << 16).unwrap());
+            let mut rx = Some(rx);
+            let mut sender = LaneSender::new(tx, if map { UplinkKind::Map } else { UplinkKind::Value }, Some(reporter));
+            let mut received = 0u64;
+            let mut counted = 0u64;
+            let mut refused = 0u64;
+            let r = catch(std::panic::AssertUnwindSafe(|| {
+                rt.block_on(async {
+                    for j in 0..n {
+                        if close_at == Some(j) {
+                            rx = None; // the lane has gone away
+                        }
+                        // a well-formed command, or (map lanes) one whose header is not a map message
+                        let body: Bytes = if map {
+                            match rng.below(4) {
+                                0 => Bytes::from_static(b"@nonsense(key:\"key\") 5"),
+                                1 => Bytes::from_static(b"@clear"),
+                                _ => Bytes::from(format!("@update(key:{}) {}", j, j * 3)),
+                            }
+                        } else {
+                            Bytes::from(j.to_string())
+                        };
+                        received += 1;
+                        if sender.feed_frame(body).await.is_err() {
+                            refused += 1;
+                        }
+                        let _ = sender.flush().await;
+                        if rng.below(3) == 0 {
+                            counted += reader.snapshot().map(|s| s.command_count).unwrap_or(0);
+                        }
+                    }
+                    counted += reader.snapshot().map(|s| s.command_count).unwrap_or(0);
+                })
+            }));
+            *kinds_count.entry(format!("lane_sender:{}", if map { "map" } else { "value" })).or_default() += 1;
+            if refused > 0 {
+                *kinds_count.entry("lane_sender:some_commands_refused".into()).or_default() += 1;
+            }
+            match r {
+                Ok(()) if counted == received => {}
+                Ok(()) => failures.push(format!("lane sender ({} lane, channel closed at {:?}): {} commands were received for the lane ({} of them refused by it), the snapshots of its reporter add up to {}", if map { "map" } else { "value" }, close_at, received, refused, counted)),
+                Err(m) => failures.push(format!("lane sender panicked: {}", m)),
+            }
+        }
+    }
+
     w.finish(&args.out, "cases").unwrap();
     let meta = J::obj(vec![
         ("evaluations", J::I(w.len() as i128)),
         ("distinct_nontrivial", J::I(nontrivial as i128)),
-        ("rule", J::s("operation sequences on the real WriteTaskState with the aggregate reporter and a reporter per lane attached: 1-4 lanes, 1-4 remotes of which some are attached late or never; link / unlink requests (also for remotes that are not attached or have been removed), broadcast events, targeted answers (implicit links; also for remotes that have gone away), write completions, lane removal, unlink-all, remote removal, re-attachment; after every operation a snapshot of every reporter: link counts shown and events consumed, compared with Model/LinkReports.v (correspondence) and with the number of links whose remote exists (oracle); non-trivial = two or more links shown at some point and a remote, a lane or all links removed")),
+        ("rule", J::s("operation sequences on the real WriteTaskState with the aggregate reporter and a reporter per lane attached: 1-4 lanes, 1-4 remotes of which some are attached late or never; link / unlink requests (also for remotes that are not attached or have been removed), broadcast events, targeted answers (implicit links; also for remotes that have gone away), write completions, lane removal, unlink-all, remote removal, re-attachment; after every operation a snapshot of every reporter: link counts shown and events consumed, compared with Model/LinkReports.v (correspondence) and with the number of links whose remote exists (oracle); non-trivial = two or more links shown at some point and a remote, a lane or all links removed; a second family (real code only) feeds the read task's LaneSender of a value and of a map lane with commands, some with a header that is no map message, the lane going away at a generated moment: the snapshots of the lane's reporter must add up to the number of commands received for the lane")),
         ("structures", J::counts(&kinds_count)),
         ("samples", J::A(samples)),
+        ("direct_failures", J::A(failures.iter().take(40).map(|f| J::s(f.chars().take(500).collect::<String>())).collect())),
+        ("direct_failure_count", J::I(failures.len() as i128)),
     ]);
     write_meta(&args.out, "meta.json", &meta);
 }
